@@ -42,7 +42,7 @@ func (c11) Describe() sim.Description {
 	return sim.Description{
 		Level: "exploration",
 		Rule: "N in {2,3,4} instances of one compiled plan (and of a second plan), in one runtime or in two runtimes sharing a compilation cache, each with its own stdout buffer, directory mount and host-function counter; plans contain memory/global/table writes, memory.grow, data.drop+memory.init, elem.drop+table.init, WASI fd_write(1)/path_open/fd_close, traps and proc_exit; " +
-			"calls are tasks: a call that reaches a host function is suspended there (native frames live) while the scheduler runs and finishes calls of other instances, per tape. " +
+			"up to two successor instances are instantiated in the same runtime right after a predecessor finished and was closed (Module.Close); the final state includes a hash of the whole linear memory; calls are tasks: a call that reaches a host function is suspended there (native frames live) while the scheduler runs and finishes calls of other instances, per tape. " +
 			"Oracle: for every instance the sequence of (results, error kind, stdout bytes, descriptor numbers) and the final memory cells/globals/memory size equal those of the SAME call sequence on a lone instance in a fresh runtime (same engine). " +
 			"Non-trivial: at least two instances had a call suspended while another instance mutated state; distinct = distinct interleavings (sequence of instance ids at scheduling points)",
 		RealCode:    []string{"internal/wasm instantiation (memory, tables, globals, data/element instances)", "both engines' module engines and module contexts", "config.go toSysContext, internal/sys FSContext and stdio per instance", "compilation cache shared between runtimes"},
@@ -90,6 +90,7 @@ type world struct {
 	files     []*os.File
 	cur       *instRun // instance whose call currently runs (for the host function)
 	sched     bool     // host function yields to the scheduler
+	instErr   error    // an instantiation next to other instances failed
 }
 
 func newRuntime(engine string, cache wazero.CompilationCache, w *world) wazero.Runtime {
@@ -164,6 +165,11 @@ func (w *world) instantiate(rt wazero.Runtime, bin []byte, root string, idx int)
 	mod, err := rt.InstantiateModule(w.ctx, cm, wazero.NewModuleConfig().WithName("").WithStdout(in.stdout).WithStderr(stderr).
 		WithFSConfig(wazero.NewFSConfig().WithDirMount(in.dir, "/")).WithArgs(fmt.Sprintf("inst%d", idx)))
 	if err != nil {
+		if w.sched {
+			// next to other instances: judged by the caller (alone, the same instantiation succeeds)
+			w.instErr = err
+			return nil
+		}
 		panic(fmt.Sprintf("harness: instantiate: %v", err))
 	}
 	in.mod = mod
@@ -200,7 +206,8 @@ func (w *world) resumeCall(in *instRun) {
 func snapshot(in *instRun) string {
 	var sb strings.Builder
 	mem := in.mod.Memory()
-	fmt.Fprintf(&sb, "pages=%d cells=", mem.Size()/65536)
+	all, _ := mem.Read(0, mem.Size())
+	fmt.Fprintf(&sb, "pages=%d mem=%x cells=", mem.Size()/65536, sha256.Sum256(all))
 	for c := 0; c < plan.NCells; c++ {
 		v, _ := mem.ReadUint32Le(uint32(8 * c))
 		fmt.Fprintf(&sb, "%d,", int32(v))
@@ -234,7 +241,29 @@ func (c11) Run(t *tape.Tape, cfg sim.Config) (res sim.Result) {
 			which[i] = 1
 		}
 	}
-	ncalls := make([][][2]int32, n)
+	// successors: instance n+k is instantiated, in the same runtime, right after instance pred[k] has
+	// finished its calls and was closed (Module.Close) -- while calls of other instances may be suspended.
+	// Whatever the closed instance left behind must not reach its successor.
+	m := t.Choose(3)
+	pred := make([]int, m)
+	for k := range pred {
+		pred[k] = t.Choose(n)
+		for j := 0; j < k; j++ {
+			if pred[j] == pred[k] {
+				pred[k] = -1 // one successor per instance
+			}
+		}
+		w1 := 0
+		if pred[k] >= 0 {
+			w1 = which[pred[k]]
+		}
+		if t.Chance(1, 4) {
+			w1 = 1 - w1
+		}
+		which = append(which, w1)
+	}
+	total := n + m
+	ncalls := make([][][2]int32, total)
 	for i := range ncalls {
 		k := t.Range(2, 8)
 		for j := 0; j < k; j++ {
@@ -270,29 +299,67 @@ func (c11) Run(t *tape.Tape, cfg sim.Config) (res sim.Result) {
 	} else {
 		w.rts = []wazero.Runtime{newRuntime(cfg.Engine, nil, w)}
 	}
-	insts := make([]*instRun, n)
-	for i := range insts {
-		insts[i] = w.instantiate(w.rts[i%len(w.rts)], bins[which[i]], filepath.Join(root, "multi"), i)
+	insts := make([]*instRun, total)
+	rtOf := make([]wazero.Runtime, total)
+	multiSnap := make([]string, total)
+	for i := 0; i < n; i++ {
+		rtOf[i] = w.rts[i%len(w.rts)]
+		insts[i] = w.instantiate(rtOf[i], bins[which[i]], filepath.Join(root, "multi"), i)
+		if insts[i] == nil {
+			res.Fail("instance-interference", "instance %d (plan %s) cannot be instantiated next to %d earlier instances: %v (alone, the same instantiation succeeds)", i, plans[which[i]].Name, i, w.instErr)
+			for _, rt := range w.rts {
+				rt.Close(ctx)
+			}
+			return
+		}
 		insts[i].calls = ncalls[i]
 	}
 	var order []string
-	overlaps := 0
+	overlaps, successions := 0, 0
 	for {
 		var cand []int
 		for i, in := range insts {
-			if in.busy || in.next < len(in.calls) {
+			if in != nil && (in.busy || in.next < len(in.calls)) {
 				cand = append(cand, i)
+			}
+		}
+		for k := 0; k < m; k++ {
+			// spawn candidates are encoded as total+k
+			if insts[n+k] == nil && pred[k] >= 0 {
+				if p := insts[pred[k]]; !p.busy && p.next == len(p.calls) {
+					cand = append(cand, total+k)
+				}
 			}
 		}
 		if len(cand) == 0 {
 			break
 		}
 		i := cand[t.Choose(len(cand))]
+		if i >= total {
+			k := i - total
+			p := insts[pred[k]]
+			multiSnap[pred[k]] = snapshot(p)
+			p.mod.Close(ctx)
+			rtOf[n+k] = rtOf[pred[k]]
+			insts[n+k] = w.instantiate(rtOf[n+k], bins[which[n+k]], filepath.Join(root, "multi"), n+k)
+			if insts[n+k] == nil {
+				res.Fail("instance-interference", "instance %d (plan %s) cannot be instantiated after instance %d was closed: %v (alone, the same instantiation succeeds)", n+k, plans[which[n+k]].Name, pred[k], w.instErr)
+				for _, rt := range w.rts {
+					rt.Close(ctx)
+				}
+				return
+			}
+			insts[n+k].calls = ncalls[n+k]
+			order = append(order, fmt.Sprintf("s%d", n+k))
+			successions++
+			res.Steps++
+			continue
+		}
 		in := insts[i]
 		order = append(order, fmt.Sprint(i))
 		suspended := 0
 		for _, o := range insts {
-			if o.busy && o != in {
+			if o != nil && o.busy && o != in {
 				suspended++
 			}
 		}
@@ -306,11 +373,15 @@ func (c11) Run(t *tape.Tape, cfg sim.Config) (res sim.Result) {
 		}
 		res.Steps++
 	}
-	multiOut := make([][]string, n)
-	multiSnap := make([]string, n)
+	multiOut := make([][]string, total)
 	for i, in := range insts {
+		if in == nil {
+			continue // a successor without a predecessor
+		}
 		multiOut[i] = in.out
-		multiSnap[i] = snapshot(in)
+		if multiSnap[i] == "" {
+			multiSnap[i] = snapshot(in)
+		}
 	}
 	for _, rt := range w.rts {
 		rt.Close(ctx)
@@ -320,7 +391,10 @@ func (c11) Run(t *tape.Tape, cfg sim.Config) (res sim.Result) {
 	}
 
 	// ---- alone: each instance in a fresh runtime, same calls, sequentially
-	for i := 0; i < n; i++ {
+	for i := 0; i < total; i++ {
+		if insts[i] == nil {
+			continue
+		}
 		lw := &world{ctx: ctx}
 		defer func() {
 			for _, f := range lw.files {
@@ -356,6 +430,7 @@ func (c11) Run(t *tape.Tape, cfg sim.Config) (res sim.Result) {
 	res.Shape = sim.ShapeOf(strings.Join(order, ""), fmt.Sprint(which))
 	res.Nontrivial = overlaps >= 2
 	res.Stat("probe.scheduling_points_with_another_call_suspended", int64(overlaps))
+	res.Stat("probe.instances_created_after_a_predecessor_was_closed", int64(successions))
 	res.Sample = map[string]any{"instances": n, "plans": which, "interleaving": strings.Join(order, ""), "first_outcomes": multiOut[0]}
 	return
 }
